@@ -172,6 +172,13 @@ BENIGN = [
  ('soc_step_root_branch_inverted', R + 'core/cones/socone.rs', '        if b >= T::zero() {\n            -b - T::sqrt(d)\n        } else {\n            -b + T::sqrt(d)\n        }', '        if b < T::zero() {\n            T::sqrt(d) - b\n        } else {\n            -b - T::sqrt(d)\n        }'),
  ('soc_step_final_min_regrouped', R + 'core/cones/socone.rs', '    T::min(αmax, T::min(r1, r2))\n}', '    T::min(T::min(r2, αmax), r1)\n}'),
  ('soc_step_negative_roots_form', R + 'core/cones/socone.rs', '    let r1 = if r1 < T::zero() { T::infinity() } else { r1 };\n    let r2 = if r2 < T::zero() { T::infinity() } else { r2 };', '    let r2 = if r2 >= T::zero() { r2 } else { T::infinity() };\n    let r1 = if r1 >= T::zero() { r1 } else { T::infinity() };'),
+ ('soc_margins_beta_swapped', R + 'core/cones/socone.rs', '        let β = T::max(T::zero(), α);\n        (α, β)', '        let β = T::max(α, T::zero());\n        (α, β)'),
+ ('nn_margins_fold_commuted', R + 'core/cones/nonnegativecone.rs', '        let β = z.iter().fold(T::zero(), |β, &zi| β + T::max(zi, T::zero()));', '        let β = z.iter().fold(T::zero(), |β, &zi| T::max(T::zero(), zi) + β);'),
+ ('soc_unit_init_order', R + 'core/cones/socone.rs', '        s.fill(T::zero());\n        z.fill(T::zero());\n        self.scaled_unit_shift(s, T::one(), PrimalOrDualCone::PrimalCone);\n        self.scaled_unit_shift(z, T::one(), PrimalOrDualCone::DualCone);', '        z.fill(T::zero());\n        self.scaled_unit_shift(z, T::one(), PrimalOrDualCone::DualCone);\n        s.fill(T::zero());\n        self.scaled_unit_shift(s, T::one(), PrimalOrDualCone::PrimalCone);'),
+ ('soc_identity_scaling_order', R + 'core/cones/socone.rs', '        self.w.fill(T::zero());\n        self.w[0] = T::one();\n        self.η = T::one();', '        self.η = T::one();\n        self.w.fill(T::zero());\n        self.w[0] = T::one();'),
+ ('genpow_barrier_order_swapped', R + 'core/cones/genpowcone.rs', '        work.waxpby(T::one(), s, α, ds);\n        barrier += self.barrier_primal(&work);\n\n        work.waxpby(T::one(), z, α, dz);\n        barrier += self.barrier_dual(&work);', '        work.waxpby(T::one(), z, α, dz);\n        barrier += self.barrier_dual(&work);\n\n        work.waxpby(α, ds, T::one(), s);\n        barrier += self.barrier_primal(&work);'),
+ ('soc_rectify_mean_local', R + 'core/cones/socone.rs', '        δ.copy_from(e).recip().scale(e.mean());\n\n        true // scalar equilibration', '        let mean = e.mean();\n        δ.copy_from(e);\n        δ.recip();\n        δ.scale(mean);\n\n        true // scalar equilibration'),
+ ('exp_rectify_scalarop', R + 'core/cones/expcone.rs', '        δ.copy_from(e).recip().scale(e.mean());\n        true // scalar equilibration', '        let mean = e.mean();\n        δ.scalarop_from(|ei| mean / ei, e);\n        true // scalar equilibration'),
 ]
 
 
